@@ -24,9 +24,12 @@ ASSUMPTIONS = [
 ]
 
 
-def texvm_part(ctx, n, seed_offset, name="TexVM.whole_programs"):
-    ev = ctx.work / "texvm.ndjson"
-    vh(["tv-events", f"seed={ctx.seed * 7919 + seed_offset}", f"n={n}", f"out={ev}"])
+def texvm_part(ctx, n, seed_offset, name="TexVM.whole_programs", cut=False):
+    """cut=True: every program is written as two lines; the first is run to the end of its input, the VM is
+    serialised and deserialised (JSON / MessagePack / bincode / not at all, rotating), the second line runs on the
+    result; the model runs the first part, then the second part from the state that is left."""
+    ev = ctx.work / ("texvm-cut.ndjson" if cut else "texvm.ndjson")
+    vh(["tv-events", f"seed={ctx.seed * 7919 + seed_offset}", f"n={n}", f"out={ev}"] + (["cut=1"] if cut else []))
     nev, bad = validate_calls(ctx, "Trace_TexVM", "Trace_TexVM.cfg", ev)
 
     def desc(e, v):
@@ -38,7 +41,10 @@ def texvm_part(ctx, n, seed_offset, name="TexVM.whole_programs"):
                 f"err={w.get('err')!r} registers={w.get('cnt')}")
     nskip = judge_calls(ctx, bad, "Trace_TexVM", {}, desc)
     errs = sum(1 for ln in open(ev) if '"fatal":1' in ln or '"errat":-1' not in ln)
-    ctx.add_bound(name, nev - nskip, nev - nskip, skipped_outside_model=nskip, runs_with_an_error=errs)
+    extra = {}
+    if cut:
+        extra["resumed_after_the_checkpoint"] = sum(1 for ln in open(ev) if '"resumed":1' in ln)
+    ctx.add_bound(name, nev - nskip, nev - nskip, skipped_outside_model=nskip, runs_with_an_error=errs, **extra)
     for a in ASSUMPTIONS:
         if a not in ctx.assumptions:
             ctx.assumptions.append(a)
